@@ -101,7 +101,7 @@ func c02Run(u *Unit) {
 			for _, h := range s.AllHosts() {
 				s.W.Manual(h, "slow applier", func(x *world.Server) { x.ApplyRate = 1 })
 			}
-			time.Sleep(10 * time.Second)
+			time.Sleep(60 * time.Second) // a backlog that outlasts the failover delay
 			sc.Cover("apply-lag-at-fault")
 		}
 		time.Sleep(time.Duration(sp.OffsetMs) * time.Millisecond)
